@@ -396,7 +396,45 @@ def r8_every_valid_guard_is_checked_for_overlap(ctx):
     ctx.floor('C20.R8', 'writes to the registry of domain guards', n, 1)
 
 
+def r9_checked_in_the_order_it_is_built(ctx):
+    ctx.rule('C20.R9', 'P9 writer/reader agreement on an ORDER: `detect_domain_conflicts` proves "every domain pattern can be inserted into a matchit router" by inserting '
+             'them, and the generated `domain_router()` inserts them again at start-up with an `unwrap()` ("Pavex has validated at compile-time that all domain '
+             'patterns are valid"). `matchit::Router::insert` is order-sensitive (what an insert answers depends on what is already in the tree), so the proof '
+             'carries over only if both sides insert in the same order: the generated code iterates the keys of a `BTreeMap<DomainGuard, _>` (sorted), hence the '
+             'compile-time check must iterate a sorted collection too, not the registration-ordered `IndexMap`.')
+    from .compiler_common import PX
+    fb = ctx.fb
+
+    def loop_source_kinds(bodies):
+        kinds = set()
+        for b in bodies:
+            ins = [bb for bb, t in b.calls() if (callee(t) or '').startswith('matchit::router::Router') and (callee(t) or '').endswith('::insert')]
+            if not ins:
+                continue
+            for bb, t in b.calls():
+                if (callee(t) or '').split('::')[-1].split('<')[0] != 'next' or not t.get('aty'):
+                    continue
+                if not any(i in b.reachable(b.succ(bb)) and bb in b.reachable(b.succ(i)) for i in ins):
+                    continue            # not the head of a loop that contains the insert
+                a0 = t['aty'][0]
+                kinds.add('sorted' if 'btree' in a0 else ('registration' if 'indexmap' in a0 else 'other:' + a0[:60]))
+        return kinds
+    chk = [b for b in fb.bodies_of_item('pavexc', PX + 'analyses::user_components::router::DomainRouter::detect_domain_conflicts') if not b.is_promoted] or \
+        [b for b in fb.bodies('pavexc') if not b.is_promoted and b.nid.endswith('detect_domain_conflicts')]
+    if not ctx.need('C20.R9', 'detect_domain_conflicts', chk):
+        return
+    check_side = loop_source_kinds(chk)
+    gen = [b for b in fb.bodies('pavexc') if not b.is_promoted and b.nroot.endswith('codegen::router::domain_router_init')]
+    if not ctx.need('C20.R9', 'codegen::router::domain_router_init', gen):
+        return
+    gen_sorted = any('BTreeMap' in ty and 'DomainGuard' in ty for b in gen for ty in b.locals[1:1 + b.raw['argc']])
+    ctx.ob('C20.R9', 'generated-router-inserts-in-sorted-order', gen_sorted, gen[0].loc(), 'domain_router_init iterates a BTreeMap<DomainGuard, _>: %s' % gen_sorted, nontrivial=False)
+    ctx.ob('C20.R9', 'checked-in-the-order-it-is-built', check_side == {'sorted'}, chk[0].loc(),
+           'the compile-time check inserts the patterns in %s order; the generated router inserts them in sorted order' % (sorted(check_side) or 'an unknown'))
+
+
 def check(ctx):
+    r9_checked_in_the_order_it_is_built(ctx)
     r1_validated_constructor(ctx)
     r2_one_pattern_source(ctx)
     r3_normalisation_agreement(ctx)
@@ -407,4 +445,4 @@ def check(ctx):
     r8_every_valid_guard_is_checked_for_overlap(ctx)
 
 
-CLAUSE += ' Also: the domain guard is handed from Blueprint::domain to the schema as given.'
+CLAUSE += ' Also: the domain guard is handed from Blueprint::domain to the schema as given.'CLAUSE += ' Also: the compile-time conflict check inserts the domain patterns in the order in which the generated router inserts them.'
